@@ -52,6 +52,9 @@ func init() {
 		{Name: "seq", Pkg: "./mon/c18", Procs: 1},
 		{Name: "file", Pkg: "./mon/c18", Env: []string{"VERIF_MODE=file"}},
 	}})
+	specs = append(specs, Spec{ID: "C15", Level: "exploration", MinDistinct: 2, Engines: []Engine{
+		{Name: "race", Pkg: "./mon/c15", Race: true, DeathSig: "C15/process-died", RepeatQuick: 1, RepeatThorough: 4},
+	}})
 	specs = append(specs, Spec{ID: "C16", Level: "exploration", MinDistinct: 50, Engines: []Engine{
 		{Name: "seq", Pkg: "./mon/c16", Procs: 1},
 	}})
